@@ -581,7 +581,6 @@ theorem walkMainJ {n m : Nat} {nb : Nbrs} {rf : Nat} {r : IR.St} (hnb : NbOK nb 
     MainJ n m nb (WalkA n nb rf r) (WalkN n nb rf r) (WalkS n nb rf r) (WalkM n nb rf r) where
   step :=
     { na := fun _ _ h => h.toA
-      sa := fun _ _ h => h.toA
       deage := fun lv s op' k hc ht _ hage h hd => by
         obtain ⟨vs, h⟩ := h
         exact ⟨vs, walk_deage lv s op' k hc ht hage h hd⟩
